@@ -109,6 +109,15 @@ class SigHarness:
                 f1 = ic.snapshot(eval("lambda p{0}: (H.rec('cap', {0}, p{0}), p{0})[1]".format(i), ns), name="s{}".format(i))(f1)
         for i in named:
             f1 = ic.require(eval("lambda p{0}: H.rec('pre', {0}, p{0})".format(i), ns))(f1)
+        # ... and through parameters that carry a DEFAULT (condition and capture): the value of the call wins
+        self.NOTSET = S("NOTSET")
+        ns["NOTSET"] = self.NOTSET
+        if named:
+            for i in named:
+                f1 = ic.snapshot(eval("lambda p{0}=NOTSET: (H.rec('capdef', {0}, p{0}), p{0})[1]".format(i), ns),
+                                 name="d{}".format(i))(f1)
+        for i in named:
+            f1 = ic.require(eval("lambda p{0}=NOTSET: H.rec('predef', {0}, p{0})".format(i), ns))(f1)
         # the same parameters asked for through KEYWORD-ONLY parameters of the condition
         for i in named:
             f1 = ic.require(eval("lambda *, p{0}: H.rec('prekw', {0}, p{0})".format(i), ns))(f1)
@@ -166,7 +175,35 @@ class SigHarness:
         return pos, kw, (out, exc)
 
 
-def replay_vectors(res: CheckResult, vectors: List[dict], ic: Any) -> Dict[str, int]:
+def replay_vectors(res: CheckResult, vectors: List[dict], ic: Any, only_roles: Any = None) -> Dict[str, int]:
+    """only_roles: report only what concerns these contract roles (e.g. the preconditions, for C01)."""
+    if only_roles is not None:
+        real = res.violation
+
+        def filtered(clause: str, what: str, replay: dict) -> None:
+            role = replay.get("role")
+            if clause in ("args.call_rejected", "args.decoration_failed") or role in only_roles:
+                real(clause, what, replay)
+
+        res = _Filtered(res, filtered)
+    return _replay_vectors(res, vectors, ic)
+
+
+class _Filtered:
+    """A CheckResult whose violation() is filtered (everything else is passed through)."""
+
+    def __init__(self, res: Any, violation: Any) -> None:
+        self.__dict__["_res"] = res
+        self.__dict__["violation"] = violation
+
+    def __getattr__(self, name: str) -> Any:
+        return getattr(self._res, name)
+
+    def __setattr__(self, name: str, value: Any) -> None:
+        setattr(self._res, name, value)
+
+
+def _replay_vectors(res: Any, vectors: List[dict], ic: Any) -> Dict[str, int]:
     by_sig = {}  # type: Dict[str, List[dict]]
     for v in vectors:
         by_sig.setdefault(json.dumps(v["sig"]), []).append(v)
@@ -213,7 +250,7 @@ def replay_vectors(res: CheckResult, vectors: List[dict], ic: Any) -> Dict[str, 
                 if got_body is not want:
                     raise MachineryError("spec Bind disagrees with CPython for {} npos={} kws={} param {}".format(
                         head, npos, kws, i))
-                for role in ("pre", "prekw", "cap", "post", "old"):
+                for role in ("pre", "prekw", "predef", "cap", "capdef", "post", "old"):
                     stats["values_compared"] += 1
                     got = seen.get((role, i), "<not evaluated>")
                     if got is not want:
